@@ -412,7 +412,10 @@ def fn_history(spec, rec):
                 raise Mismatch("edit-raises/%s" % type(e).__name__, repr(e))
             if t is None:
                 continue
-            tag = t + ("/nested" if p else "/top-level")
+            # "nested" = the edited state sits inside some composite: in its own group's tree, or - when the first group's state
+            # object is also the first member of the extra group's many-way 'or' - inside that one
+            inside_other = any(g2 is not g and any(s2 is s for p2, s2 in nodes_of(g2.subset_state) if p2) for g2 in w.groups)
+            tag = t + ("/nested" if (p or inside_other) else "/top-level")
         elif kind == "move_group":
             if not w.groups:
                 continue
